@@ -182,6 +182,25 @@ func lateCancel(c *Ctx, im *Impl) {
 	if closed != tries {
 		im.Violate(fmt.Sprintf("%d of %d hung-up sessions were not closed by the node", tries-closed, tries), "hangup-not-closed", rec)
 	}
+	// ... and no route may be left to any of them (the runner is slow here: a run that started while
+	// a session's costs were published must be followed by another one after it is gone)
+	var stale []string
+	for t0 := time.Now(); time.Since(t0) < 3*time.Second; time.Sleep(50 * time.Millisecond) {
+		stale = stale[:0]
+		for dest := range n.Status().RoutingTable {
+			if strings.HasPrefix(dest, "x") {
+				stale = append(stale, dest)
+			}
+		}
+		if len(stale) == 0 {
+			break
+		}
+	}
+	if len(stale) > 0 && len(left) == 0 {
+		rec["stale_routes"] = stale
+		im.Violate(fmt.Sprintf("3 s after all %d sessions have ended and their connections are gone, the routing table still routes to %d of them", tries, len(stale)),
+			"route-without-connection:late-cancel", rec)
+	}
 	if len(left) > 0 {
 		im.Violate(fmt.Sprintf("%d of %d sessions that were hung up right after admission are still listed in Status().Connections (and routed)", len(left), tries),
 			"connection-without-session:late-cancel", rec)
@@ -259,7 +278,8 @@ func gateRace(c *Ctx, im *Impl) {
 	}
 	start := time.Now()
 	rounds := 0
-	for ; rounds < maxRounds && time.Since(start) < budget; rounds++ {
+	// on a loaded machine the budget is stretched (to 10 s) until at least 150 rounds have been played
+	for ; rounds < maxRounds && (time.Since(start) < budget || (rounds < 150 && time.Since(start) < 10*time.Second)); rounds++ {
 		N := 6 + rounds%3
 		id := fmt.Sprintf("twin%d", rounds)
 		var gate, arrived int32
@@ -465,13 +485,13 @@ func oneEnding(way, stage string) endingResult {
 		if !push(hsMsg(id)) {
 			return endingResult{what: "harness: handshake not consumed", sig: "harness-error"}
 		}
-		for t0 := time.Now(); time.Since(t0) < 2*time.Second; time.Sleep(2 * time.Millisecond) {
+		for t0 := time.Now(); time.Since(t0) < 6*time.Second; time.Sleep(2 * time.Millisecond) {
 			if c, r, rt := state(); c && r && rt {
 				break
 			}
 		}
 		if c, r, rt := state(); !(c && r && rt) {
-			return endingResult{what: fmt.Sprintf("harness: session not established and routed within 2 s (conn=%v row=%v route=%v)", c, r, rt), sig: "harness-error"}
+			return endingResult{what: fmt.Sprintf("harness: session not established and routed within 6 s (conn=%v row=%v route=%v)", c, r, rt), sig: "harness-error"}
 		}
 	} else {
 		// let the session start (its first hello message shows runProtocol is running)
@@ -616,7 +636,7 @@ func reportEndings(im *Impl, jobs []endingJob, res []endingResult) {
 		im.Hist("session-ending:" + j.way)
 		im.Hist("session-ending-stage:" + j.stage)
 		im.Count(fmt.Sprintf("ending %s %s %d", j.way, j.stage, i), true)
-		if !r.ok && !strings.HasPrefix(r.sig, "harness") {
+		if !r.ok {
 			// the bounds are wall-clock: confirm alone before reporting
 			r = oneEnding(j.way, j.stage)
 		}
